@@ -214,10 +214,12 @@ def dec_b256(ctx):
             else:
                 break
     sites = [(b, st) for b, i, v, st in agg_sites(body, "decodation::DataDecodingError") if v == "UnexpectedEnd"]
-    ok = bool(sites)
+    # (with `data.eat()?` there is no UnexpectedEnd site in this function at all: the error is the reader's own)
+    eats = body.calls(lambda c, _t: T.canon(c).endswith("Reader::eat"))
+    ok = bool(sites) or len(eats) >= 2
     for b, st in sites:
         ok = ok and any(body.dominated_by_edge(b, e) for e in err_edges)
-    obs.append(Ob(r, "end-only-by-eat", ok and len(err_edges) >= 2,
+    obs.append(Ob(r, "end-only-by-eat", ok and (len(err_edges) >= 2 or not sites),
                   "decode_base256 reports UnexpectedEnd only on the failure edge of a Reader::eat() (a field whose bytes are all present is never refused up front) - %d sites, %d eat calls" % (len(sites), len(err_edges)),
                   site=M.fmt_span(sites[0][1]["span"]) if sites else None))
     # payload loop: for _ in 0..length { eat -> push(derandomize) }
@@ -229,10 +231,22 @@ def dec_b256(ctx):
         rg = adt_fields(strip_into_iter(loops[0][2]), "core::ops::Range")
         ok = bool(rg) and rg.get("start") == ("lit", 0) and is_var(rg.get("end"), "length")
         body_s = loops[0][3]
-        ok = ok and len(body_s) == 1 and body_s[0][0] == "if" and body_s[0][1][0] == "iflet" and body_s[0][1][1][1].endswith("Reader::eat")
-        if ok:
+        if ok and len(body_s) == 1 and body_s[0][0] == "if" and body_s[0][1][0] == "iflet" and body_s[0][1][1][1].endswith("Reader::eat"):
             pushes = [x for st in body_s[0][2] for e in T.stmt_exprs(st) for x in T.sx_calls(e, "Vec::push")]
             ok = len(pushes) == 1 and pushes[0][2][1][0] == "call" and pushes[0][2][1][1].endswith("derandomize_255_state")
+        elif ok and len(body_s) == 2 and body_s[0][0] == "let" and body_s[0][3][0] == "try" and body_s[0][3][1][0] == "call" and body_s[0][3][1][1].endswith("Reader::eat") \
+                and body_s[1][0] == "expr":
+            # let ch = data.eat()?; out.push(derandomize_255_state(ch, ..));
+            pushes = T.sx_calls(body_s[1][1], "Vec::push")
+            ok = len(pushes) == 1 and pushes[0][2][1][0] == "call" and pushes[0][2][1][1].endswith("derandomize_255_state") \
+                and is_var(pushes[0][2][1][2][0], body_s[0][1].split("#")[0])
+        elif ok and len(body_s) == 1 and body_s[0][0] == "expr":
+            # out.push(derandomize_255_state(data.eat()?, ..));
+            pushes = T.sx_calls(body_s[0][1], "Vec::push")
+            ok = len(pushes) == 1 and pushes[0][2][1][0] == "call" and pushes[0][2][1][1].endswith("derandomize_255_state") \
+                and pushes[0][2][1][2][0][0] == "try" and bool(T.sx_calls(pushes[0][2][1][2][0], "Reader::eat"))
+        else:
+            ok = False
     obs.append(Ob(r, "payload-loop", ok, "exactly `length` codewords are eaten and each is de-randomised and pushed"))
     # returns to ASCII: DEC-MODE
     return obs
